@@ -138,6 +138,11 @@ def run(prog, rep, tier, repo):
         elif got == want or _same_factors(got, {'X', 'W', 'Y', 'MU', 'DMU', 'VAR'}, want):
             rep.ok('score-form', key, 'gradient = -X^T [w (y - mu) dmu/var]: %s' % show_expr(ret)[:140])
             rep.sample('compute_dbeta = %s' % show_expr(ret)[:160])
+        elif isinstance(got, frozenset) and want <= got and got - want <= frozenset([('c', 0.0)]):
+            # the accumulated form is right, but the initial 0.0 is still a possible element value: full coverage of the
+            # coefficient range by the update (a fold over rows with an inner zip) is not derived
+            rep.undecided('score-form', key, 'gradient elements are %s: the update has the Fisher form, its coverage of every coefficient is not derived' % show_expr(ret)[:160],
+                          site_of(pdb.bodies[k]), proof=False)
         else:
             rep.viol('score-form', key, 'gradient is %s, Fisher scoring needs -X^T [w (y - mu) dmu/var]' % show_expr(ret)[:220], site_of(pdb.bodies[k]))
     k = G + '::compute_ddbeta'
@@ -744,7 +749,11 @@ def run(prog, rep, tier, repo):
     for name in ('compute_dbeta', 'compute_ddbeta'):
         g = prog.func(G + '::' + name)
         if g is not None:
-            n += check_stride(prog, g, rep)
+            nf = check_stride(prog, g, rep)
+            n += nf
+            if nf == 0:
+                # the anchor is the function; a body that reaches the design matrix through slices / iterators has no index form to read
+                rep.undecided('stride', 'stride:%s::%s:unread' % (G, name), 'no 2-D index access x[i*p + j] in this body: the stride is not read', site_of(g.body), proof=False)
     rep.floor('stride', 2, 'design-matrix accesses in gradient and information')
     for kk in eng.visited:
         rep.touch(kk)
